@@ -132,7 +132,7 @@ CLASSES = dict(globals().get('CLASSES', {}))
 CLASSES['MatrixGenSettingsX'] = {}
 PAIR = 'Tuple[Int,Int]'
 CONTRACTS[F + 'NodeExistence.get_effective_settings@excluded-remap'] = dict(
-    properties=['C11', 'C09'],
+    properties=['C11', 'C09', 'C01', 'C04'],
     types={'self': 'Ref', 'settings': 'Ref[MatrixGenSettingsX]'},
     start_at='excluded = []',
     stop_before='effective_settings = MatrixGenSettings(',
@@ -153,3 +153,31 @@ CONTRACTS[F + 'NodeExistence.get_effective_settings@excluded-remap'] = dict(
     modifies=[],
     no_frame=True,
 )
+
+
+def _domain_excluded_remap(n):
+    """The segment (cut out of the real source) run by CPython on small index maps and exclusion lists."""
+    import random, os
+    from pyvc.replay import segment_callable
+    key = F + 'NodeExistence.get_effective_settings@excluded-remap'
+    seg = segment_callable(key, CONTRACTS[key], os.environ.get('VERIF_REPO', '/repo'))
+    rng = random.Random(8900 + int(os.environ.get('VERIF_SEED', '0') or 0))
+    for _ in range(n):
+        ns, nt = rng.randint(1, 4), rng.randint(1, 4)
+        src_keep = sorted(rng.sample(range(ns), rng.randint(0, ns)))
+        tgt_keep = sorted(rng.sample(range(nt), rng.randint(0, nt)))
+        src_idx_map = {i: k for k, i in enumerate(src_keep)}
+        tgt_idx_map = {j: k for k, j in enumerate(tgt_keep)}
+        excl = [(rng.randrange(ns), rng.randrange(nt)) for _ in range(rng.randint(0, 4))]
+
+        class S:
+            def get_excluded_indices(self, excl=excl):
+                return list(excl)
+        st = S()
+        env = {'self': None, 'settings': st, 'src_idx_map': src_idx_map, 'tgt_idx_map': tgt_idx_map, 'excl_in': list(excl)}
+        uni = {PAIR: [(a, b) for a in range(-1, 5) for b in range(-1, 5)]}
+        yield (env, (lambda st=st, s=src_idx_map, t=tgt_idx_map: seg(self=None, settings=st, src_idx_map=s, tgt_idx_map=t)), uni,
+               f'get_effective_settings[excluded-remap segment](src_idx_map={src_idx_map}, tgt_idx_map={tgt_idx_map}, excluded={excl})')
+
+
+DOMAIN[F + 'NodeExistence.get_effective_settings@excluded-remap'] = _domain_excluded_remap
